@@ -516,7 +516,7 @@ def plan_for(rs, k, am, partner, tier):
     runs, add, state = adder(am, k)
 
     # the three-slot meshes of the exhaustive family meet the option combinations in rotation
-    light = tier == "quick" and n <= 3
+    light = tier == "quick" and n <= 3 and nf <= 2
     for mt, mn in itertools.product((False, True), repeat=2):
         if light and (mt == mn) != (k % 2 == 0):
             continue
@@ -565,7 +565,8 @@ def work_items(tier):
         meshes += [("big", big_mesh(rs)) for _ in range(1500)]
     else:
         meshes += [("exh", m) for m in exhaustive_meshes(rs, 2, False)]
-        meshes += [("rnd", sample_mesh(rs, 6, 4)) for _ in range(520)]
+        meshes += [("rnd", sample_mesh(rs, 6, 4)) for _ in range(480)]
+        meshes += [("mid", sample_mesh(rs, 8, 6)) for _ in range(50)]
         meshes += [("big", big_mesh(rs)) for _ in range(40)]
     cases = []
     fam = {}
@@ -599,9 +600,9 @@ def deviation_of(c, clause):
     if c["op"] in ("submesh", "split") and c["vis"] == "face" and clause == "face_color" \
             and c["outs"] and all(o["kind"] == "vertex" for o in c["outs"]):
         return "FaceSubsetTurnsFaceColorsIntoVertexColors"
-    if c["op"] == "split" and len(c["faces"]) > 16 and clause == "relative_order":
-        # connected_components groups the face labels with numpy's default (unstable above 16 elements) sort
-        return "SplitScramblesFaceOrderOfLargeParts"
+    if c["op"] == "split" and len(c["faces"]) >= 2 and clause == "relative_order":
+        # connected_components groups the face labels with numpy's default sort, which is not stable
+        return "SplitScramblesFaceOrderInsideParts"
     if c["op"] == "remove_infinite_values" and dropped_referenced(c) \
             and clause in ("surviving_face_set", "faces_index_existing_vertices"):
         return "RemoveInfiniteValuesKeepsDanglingFaces"
@@ -761,8 +762,8 @@ def main(argv):
     }
     return V.finish("model_checking", cov, assumptions=[
         "small scope: <= 4 faces over <= 6 vertex slots over <= 5 lattice positions (4 in general position, one on a "
-        "segment) with quarter-unit twins and one NaN/inf slot; plus meshes of 17..22 faces over <= 24 slots (numpy "
-        "sorts switch algorithm above 16 elements); thorough adds meshes of <= 6 faces over <= 8 slots",
+        "segment) with quarter-unit twins and one NaN/inf slot; plus meshes of <= 6 faces over <= 8 slots and of "
+        "17..22 faces over <= 25 slots (numpy sorts change algorithm with the array length)",
         "slots of one position id differ by < 2e-9 (inside tol.merge); quarter-unit twins merge only at digits_vertex=0",
         "option values: digits_vertex in {None, 8, 6, 0}, digits_uv in {None, 1}, digits_norm in {None, 0}; "
         "merge_tex / merge_norm in {None, False, True}; only_watertight, append, repair in {False, True}",
